@@ -71,7 +71,14 @@ func genSnap(r *Rng, tier string, idx int, prop string) *Plan {
 				p.Ops = append(p.Ops, Op{Kind: "advance", N: int64(r.Range(1, int(p.Knobs["interval_ms"])-1))})
 			}
 		}
+		if r.Chance(0.5) {
+			// a transient I/O error during the automatic snapshot: once it is gone the snapshot must still be taken
+			p.Ops = append(p.Ops, Op{Kind: "auto-fault", N: int64(r.Intn(9)), S: Pick(r, []string{"eio", "enospc"})})
+		}
 		p.Ops = append(p.Ops, Op{Kind: "expect-auto"})
+		if r.Chance(0.3) {
+			p.Ops = append(p.Ops, Op{Kind: "lastsave"})
+		}
 		p.Ops = append(p.Ops, Op{Kind: "restart", S: "kill"})
 		p.Dice = drawDice(r, 32)
 		return p
@@ -474,12 +481,23 @@ func (a *snapRun) run() {
 			if got != want && got != want/1000 {
 				a.fail("lastsave/wrong", fmt.Sprintf("LASTSAVE = %d but the snapshot last taken/restored was made at %d ms (%d completed)", got, want, len(a.good)))
 			}
+		case "auto-fault":
+			a.disk.Arm(int(op.N), op.S, "snap.")
+			a.names = append(a.names, "auto-fault:"+op.S)
 		case "expect-auto":
 			// bounded liveness: one more interval after the threshold-th write a snapshot must exist
 			before := a.doneSeen
 			due := int64(a.sinceSnap) >= p.K("threshold")
 			a.s.AdvanceSync(time.Duration(p.K("interval_ms")) * time.Millisecond)
 			a.s.AdvanceSync(time.Duration(p.K("interval_ms")) * time.Millisecond)
+			if a.disk.Fired {
+				// the injected fault has fired (one attempt failed); faults stop here: two more intervals
+				a.faultLog = append(a.faultLog, a.disk.Mode+"@"+a.disk.FiredAt)
+				a.disk.Disarm()
+				a.s.AdvanceSync(time.Duration(p.K("interval_ms")) * time.Millisecond)
+				a.s.AdvanceSync(time.Duration(p.K("interval_ms")) * time.Millisecond)
+			}
+			a.disk.Disarm()
 			a.checks++
 			a.o.Trivial = false
 			if !due {
@@ -489,7 +507,11 @@ func (a *snapRun) run() {
 				break // fewer successful write commands than the threshold since the last snapshot: nothing is due
 			}
 			if a.doneSeen == before {
-				a.fail("no-auto-snapshot", fmt.Sprintf("threshold=%d interval=%dms: %d write commands succeeded since the last snapshot and two more intervals elapsed, but no automatic snapshot was taken", p.K("threshold"), p.K("interval_ms"), a.sinceSnap))
+				what := "no-auto-snapshot"
+				if len(a.faultLog) > 0 {
+					what = "no-auto-snapshot-after-fault"
+				}
+				a.fail(what, fmt.Sprintf("threshold=%d interval=%dms: %d write commands succeeded since the last snapshot and two more intervals elapsed (faults injected before that: %v), but no automatic snapshot was taken", p.K("threshold"), p.K("interval_ms"), a.sinceSnap, a.faultLog))
 			}
 		case "restart":
 			a.names = append(a.names, "restart:"+op.S)
